@@ -12,8 +12,8 @@ from c03_gen import generate_cases
 class C03(vlib.Driver):
     pid = "C03"
     preamble = ("From Coq Require Import ZArith String.\n"
-                "From AgileV Require Import C03.Model C03.ModelCnn C03.ModelNet C03.Check.\n"
-                "Open Scope Z_scope. Open Scope string_scope.")
+                "From AgileV Require Import C03.Model C03.ModelCnn C03.Check.\n"
+                "Open Scope Z_scope. Open Scope string_scope.\nDefinition length {A} := @List.length A.")
     rule = ("one case = one building block / network, a start architecture, a chain of advertised mutation calls "
             "(explicit arguments or scripted numpy draws). Exhaustive BFS over the architectures reachable for small "
             "bounds (one case per edge: every advertised method x every argument / draw choice) + seeded long walks at "
